@@ -32,7 +32,7 @@ theorem mdf_spec (y : Int) (o : Nat) (ho1 : 1 ≤ o) (ho2 : o ≤ yearLen y) :
   unfold Date.mdf; rw [hol, hfl, ← hbit]; exact h1
 
 /-- a valid ordinal of year `y` -/
-theorem ordinal_bounds (y : Int) (m d : Nat) (h : validYmd y m d = true) :
+theorem ordinal_bounds_c08 (y : Int) (m d : Nat) (h : validYmd y m d = true) :
     1 ≤ ordinalOf y m d ∧ ordinalOf y m d ≤ yearLen y := by
   obtain ⟨hf16, _, _, _⟩ := flagsOf_facts y
   have hb := valid_bounds y m d h
@@ -76,7 +76,7 @@ theorem with_mdf_spec (y : Int) (o m d : Nat) (ho : o < 512) (hm : m ≤ 12) (hd
   by_cases hval : validYmd y m d = true
   · rw [if_pos hval, if_pos hval]
     dsimp only
-    have hb := ordinal_bounds y m d hval
+    have hb := ordinal_bounds_c08 y m d hval
     rw [replace_ordinal y o _ ho hb.1 hb.2]
   · rw [if_neg hval, if_neg hval]
 
@@ -322,7 +322,7 @@ theorem diff_months_spec (y : Int) (o : Nat) (hy : MIN_YEAR ≤ y ∧ y ≤ MAX_
 theorem ymd_fields (y : Int) (m d : Nat) (hv : validYmd y m d = true) :
     (dateOfYo y (ordinalOf y m d)).year = y ∧ (dateOfYo y (ordinalOf y m d)).month = .ok m ∧
     (dateOfYo y (ordinalOf y m d)).day = .ok d ∧ (dateOfYo y (ordinalOf y m d)).ordinal = ordinalOf y m d := by
-  have hb := ordinal_bounds y m d hv
+  have hb := ordinal_bounds_c08 y m d hv
   have hyl := yearLen_ge y
   obtain ⟨h1, h2, _⟩ := dateOfYo_fields y (ordinalOf y m d) (by omega)
   obtain ⟨m1, m2, _, _⟩ := month_day_spec y (ordinalOf y m d) hb.1 hb.2
@@ -494,7 +494,7 @@ theorem month_num_days_spec (mo : Month) (y : Int) :
     · rw [if_neg (by intro h; omega), if_pos ⟨rfl, hr⟩]
     · rw [if_pos ⟨by omega, by omega, hv⟩, if_neg (by intro h; exact hr h.2)]
       dsimp only
-      have hb := ordinal_bounds y 2 1 hv
+      have hb := ordinal_bounds_c08 y 2 1 hv
       have hyl := yearLen_ge y
       obtain ⟨_, _, _, _, _, hleap⟩ := dateOfYo_fields y (ordinalOf y 2 1) (by omega)
       rw [hleap]
@@ -535,7 +535,7 @@ theorem nth_weekday_eq (y : Int) (m : Nat) (w : Weekday) (n : Nat) :
     by_cases hc : MIN_YEAR ≤ y ∧ y ≤ MAX_YEAR ∧ validYmd y m 1 = true
     · rw [if_pos hc]
       dsimp only
-      have hb := ordinal_bounds y m 1 hc.2.2
+      have hb := ordinal_bounds_c08 y m 1 hc.2.2
       have hyl := yearLen_ge y
       have hwd := weekday_spec y (ordinalOf y m 1) (by omega)
       have hw7 := weekday_toNat_lt w
@@ -644,7 +644,7 @@ theorem from_days_nf (N : Int) (h : -2147483648 ≤ N + 365 ∧ N + 365 ≤ 2147
   rw [ckI32_ok (by omega) (by omega)]
 
 /-- `add_days` moves the day number by exactly `days`, or fails exactly when that leaves the range -/
-theorem add_days_spec (y : Int) (o : Nat) (hy : MIN_YEAR ≤ y ∧ y ≤ MAX_YEAR) (ho : 1 ≤ o ∧ o ≤ yearLen y)
+theorem add_days_spec_c08 (y : Int) (o : Nat) (hy : MIN_YEAR ≤ y ∧ y ≤ MAX_YEAR) (ho : 1 ≤ o ∧ o ≤ yearLen y)
     (days : Int) (hd : -1000000000 ≤ days ∧ days ≤ 1000000000) :
     ∃ r, (dateOfYo y o).add_days days = .ok r ∧ IsDateOfDayNum r (dayNumYo y o + days) := by
   have hMIN : MIN_YEAR = -262143 := rfl
@@ -746,7 +746,7 @@ theorem week_first_spec (y : Int) (o : Nat) (hy : MIN_YEAR ≤ y ∧ y ≤ MAX_Y
     rw [← hwd]; unfold daysBack; omega
   rw [hdays]
   have hb := daysBack_range (weekdayOf (dayNumYo y o)) s.toNat
-  obtain ⟨r, hr, hspec⟩ := add_days_spec y o hy ho (-(daysBack (weekdayOf (dayNumYo y o)) s.toNat)) (by omega)
+  obtain ⟨r, hr, hspec⟩ := add_days_spec_c08 y o hy ho (-(daysBack (weekdayOf (dayNumYo y o)) s.toNat)) (by omega)
   exact ⟨r, hr, by rw [Int.sub_eq_add_neg]; exact hspec⟩
 
 theorem week_last_spec (y : Int) (o : Nat) (hy : MIN_YEAR ≤ y ∧ y ≤ MAX_YEAR) (ho : 1 ≤ o ∧ o ≤ yearLen y)
@@ -766,7 +766,7 @@ theorem week_last_spec (y : Int) (o : Nat) (hy : MIN_YEAR ≤ y ∧ y ≤ MAX_YE
     rw [← hwd]; unfold daysBack; omega
   rw [hdays]
   have hb := daysBack_range (weekdayOf (dayNumYo y o)) s.toNat
-  obtain ⟨r, hr, hspec⟩ := add_days_spec y o hy ho (6 - daysBack (weekdayOf (dayNumYo y o)) s.toNat) (by omega)
+  obtain ⟨r, hr, hspec⟩ := add_days_spec_c08 y o hy ho (6 - daysBack (weekdayOf (dayNumYo y o)) s.toNat) (by omega)
   refine ⟨r, hr, ?_⟩
   have e : dayNumYo y o - daysBack (weekdayOf (dayNumYo y o)) ↑s.toNat + 6
       = dayNumYo y o + (6 - daysBack (weekdayOf (dayNumYo y o)) ↑s.toNat) := by omega
